@@ -104,6 +104,7 @@ void h_tick(void) {
                 V_ASSERT(!tab->entries[i].valid, "C14: no live session left after inactivity timeout");
         }
     } else if (dt < 30) {
+        V_ASSERT(m->inactive_timeout_ts == in.t0 + 30, "C14: a tick before the 30 s deadline leaves the deadline armed (so a later tick still ends the session)");
         bool expired = in.state != Q && (in.now_s - in.last_ts) > (uint64_t)a->states_table[in.state].timeout;
         (void)expired;
         V_ASSERT(a->current_state == in.state, "C14: tick leaves the state alone before the 30 s deadline");
@@ -111,6 +112,33 @@ void h_tick(void) {
             V_ASSERT(m->ctc == in.ctc, "C14: tick leaves the charge counter alone before the deadlines");
     }
     V_WITNESS("h_tick end");
+}
+
+/* two ticks: any tick strictly before the deadline, then one more than 30 s after the last frame */
+void h_two_ticks(void) {
+    load_inputs();
+    automata *a = init_automata_mapping();
+    V_ASSUME(a != 0 && a->extra != 0);
+    V_ASSUME(in.state <= 2);
+    V_ASSUME(in.t0 <= in.last_ts && in.last_ts <= in.now_s && in.now_s < (1ull << 62));
+    mapping_state *m = (mapping_state *)a->extra;
+    a->current_state = in.state;
+    a->last_ts = in.t0;
+    g_plat.now_s = in.t0;
+    mapping_reset_inactive_timeout(m);
+    m->ctc = in.ctc;
+    m->charge_timeout_ts = in.charge_ts;
+    session_table *tab = session_table_create();
+    V_ASSUME(tab != 0);
+    *tab = in.tab;
+    V_ASSUME(in.last_ts - in.t0 < 30);          /* first tick before the deadline (in.last_ts reused as its time) */
+    g_plat.now_s = in.last_ts; g_plat.now_ms = in.now_ms;
+    automata_tick(a, 0, tab, 0);
+    V_ASSUME(in.now_s - in.t0 > 30);
+    g_plat.now_s = in.now_s;
+    automata_tick(a, 0, tab, 0);
+    V_ASSERT(a->current_state == Q && m->ctc == 0 && tab->count == 0, "C14: after 30 s without any frame a tick ends the session, whatever ticks ran in between");
+    V_WITNESS("h_two_ticks end");
 }
 
 #ifndef VERIF_CBMC
